@@ -384,7 +384,11 @@ def main():
                 if not okb:
                     broken.append(("correspondence", f"emulated {arch} build", exe[-800:]))
                     continue
-                ecases = vlib.emu_cases(cases, arch)[: P.get("emu_max", 40000)]
+                ecases = vlib.emu_cases(cases, arch)
+                emax = P.get("emu_max_quick", 15000) if tier == "quick" else P.get("emu_max", 400000)
+                if len(ecases) > emax:
+                    st_ = max(1, len(ecases) // emax)
+                    ecases = ecases[::st_][:emax]
                 eouts = run_cases(P, ecases, [(f"emu-{arch}", exe, None)], want_model=True)
                 erows = eouts.get("model")
                 if erows is None or len(erows) != len(ecases):
@@ -522,22 +526,42 @@ def main():
     sys.exit(rc)
 
 def replay(P, path):
+    """re-run the recorded failing input on a fresh build of /repo's working tree (same build flavour as recorded)"""
+    import re, shutil
     d = json.load(open(path))
     if d.get("kind") != "failing-input":
         print(json.dumps(d, indent=1)); sys.exit(1)
-    okb, exe = vlib.harness_build(profile="debug", hooks=True)
-    if not okb:
-        print(exe); sys.exit(2)
-    os.makedirs(vlib.CASES, exist_ok=True)
-    cp = os.path.join(vlib.CASES, "replay.cases")
-    vlib.write_cases(cp, [d["case"]])
-    rows = vlib.run_lines(exe, cp)
-    op, kv = vlib.parse_case(d["case"])
-    res, tr = rows[0]
-    t, fl = vlib.split_trace(tr)
-    m = P["oracle"](op, kv, vlib.canon_res(res), t, fl)
-    print(f"case: {d['case']}\nimpl: {res}  trace: {tr}\noracle: {m or 'satisfied'}")
-    sys.exit(1 if m else 0)
+    b = (d.get("details") or {}).get("build") or "debug"
+    scratch = None
+    if b.startswith("emu-"):
+        okb, exe, scratch = vlib.emu_build(b[4:])
+    else:
+        prof = "release" if "release" in b else "debug"
+        feats = ["alloc"] if "+alloconly" in b else ([] if "+nofeatures" in b else None)
+        okb, exe = vlib.harness_build(profile=prof, hooks=not b.startswith("plain"), features=feats,
+                                      extra_rustflags="-Ctarget-feature=+avx2" if "+avx2" in b else "")
+    try:
+        if not okb:
+            print(exe); sys.exit(2)
+        os.makedirs(vlib.CASES, exist_ok=True)
+        cp = os.path.join(vlib.CASES, f"replay.{os.getpid()}.cases")
+        vlib.write_cases(cp, [d["case"]])
+        m_ = re.search(r"\bcpu=(sse2|none)\b", d["case"])
+        try:
+            rows = vlib.run_lines(exe, cp, env={"MEMCHR_VERIF_CPU": m_.group(1)} if m_ else None)
+        finally:
+            os.remove(cp)
+        op, kv = vlib.parse_case(d["case"])
+        res, tr = rows[0]
+        t, fl = vlib.split_trace(tr)
+        m = P["oracle"](op, kv, vlib.canon_res(res), t, fl)
+        if res.startswith("CRASH") and m is None:
+            m = f"implementation crashed: {res}"
+        print(f"build: {b}\ncase: {d['case'][:2000]}\nimpl: {res}  trace: {tr[:300]}\noracle: {m or 'satisfied'}")
+        sys.exit(1 if m else 0)
+    finally:
+        if scratch:
+            shutil.rmtree(scratch, ignore_errors=True)
 
 if __name__ == "__main__":
     main()
